@@ -16,9 +16,10 @@ import json
 import os
 
 import numpy as np
+from fractions import Fraction
 
 from braxlint import scenario, avn, guards, pred
-from braxlint.avn import Poly, Rat, asarr, elemwise, fn, same, symarr, uf
+from braxlint.avn import Poly, Rat, Struct, asarr, elemwise, fn, same, symarr, uf
 from braxlint.avnlib import MA, diff_report, new_interp, sym
 from braxlint.universe import AnalysisError, call_name, dotted, num_val, own_nodes
 
@@ -303,6 +304,85 @@ def r3_4(U, rep):
             'orthogonals no longer zeroes its result for a zero input vector', where=f.where())
 
 
+def r3_5(U, rep, tier):
+  """R3.5: the gradient AT REST is the right one, not merely finite.  generalized.integrator._integrate_q_free is
+  interpreted at angular velocity w = 0 + eps v (dual numbers: exactly what forward-mode differentiation propagates
+  at the point w = 0) with the epsilon guards of the source read as c * eta for a formal infinitesimal eta (Laurent
+  series, class avn.Germ): in the limit eta -> 0 the first-order change of the integrated quaternion must be the
+  derivative of the exponential map,  d rot' = rot (x) (0, dt/2 v)  -- what central differences measure."""
+  from braxlint import refkin
+  f = U.func('brax.generalized.integrator._integrate_q_free')
+  bad = None
+  trials = 3 if tier == 'quick' else 8
+  done = 0
+  for t in range(40):
+    if done >= trials or bad:
+      break
+    def decide(nm):
+      if not isinstance(nm, avn.Atom):
+        return None
+      if nm.kind in ('allclose', 'all', 'any', 'bool'):
+        # a comparison of a value whose image at the expansion point is exactly 0 (dual / infinitesimal parts aside)
+        args = avn.ATOM_ARGS.get(nm)
+        if nm.kind == 'allclose' and args is not None:
+          vals = [avn.dual_parts(x)[0] for x in asarr(args[0]).ravel()]
+          if all(not isinstance(v, avn.Germ) for v in vals):
+            return int(all(v == 0 for v in vals))
+      return None
+    avn.field_mode(7000 + t, decide=decide)
+    avn.FIELD['sqrt_axiom'] = 'soft'
+    avn.FIELD['soft_hits'] = 0
+    avn.FIELD['eta'] = Fraction(1, 10 ** 5)
+    v = [2 + (7919 * (t + 1) * (k + 3)) % 1000003 for k in range(3)]
+    for k in range(3):
+      avn.FIELD['dual']['w%d' % k] = avn.Dual(0, v[k])
+    try:
+      I = new_interp(U.repo)
+      rot = refkin.unit_quat('r')
+      pos, vel = symarr('p', (3,)), symarr('vl', (3,))
+      w = np.array([sym('w%d' % k) for k in range(3)], dtype=object)
+      dt = sym('dt')
+      sysd = Struct('System', {'opt': Struct('Opt', {'timestep': dt})}, home='brax.base')
+      q = np.concatenate([pos, rot])
+      qd = np.concatenate([vel, w])
+      out = asarr(I.apply(fn('brax.generalized.integrator', '_integrate_q_free'), [sysd, q, qd], {}))
+      if avn.FIELD['soft_hits']:
+        # a square root without a root in GF(p) entered the run: only a PASS would be a verdict; try another point
+        pass
+      ref = refkin.qmul(rot, np.array([Rat.lift(0)] + [Rat.lift(dt) * Rat.lift(x) / 2 for x in v], dtype=object))
+      ok = True
+      for k in range(4):
+        fv = Rat.lift(out[3 + k]).fv
+        if isinstance(fv, avn.Germ):
+          fv = fv.standard()
+        a_, b_ = (fv.a, fv.b) if isinstance(fv, avn.Dual) else (fv, 0)
+        want0, want1 = Rat.lift(rot[k]).fv, Rat.lift(ref[k]).fv
+        if a_ != want0 and (avn.FIELD['p'] - a_) % avn.FIELD['p'] == want0:
+          a_, b_ = (-a_) % avn.FIELD['p'], (-b_) % avn.FIELD['p']      # q and -q: the other root of the renormalisation
+        if a_ != want0 or b_ != want1:
+          ok = False
+      if ok or not avn.FIELD['soft_hits']:
+        done += 1
+        if not ok:
+          bad = t
+    except avn.NonResidue:
+      continue
+    except avn.OutOfFragment as e:
+      # the integration is written with a construct the Laurent-series domain does not model: no verdict from this rule
+      rep.note('R3.5 undecided: %s' % e)
+      return
+    finally:
+      avn.exact_mode()
+  if done < trials and not bad:
+    raise AnalysisError('R3.5: fewer than %d conclusive random points in 40 tries' % trials)
+  rep.check(bad is None, 'R3.5', 'free-joint quaternion integration: derivative at zero angular velocity',
+            'at angular velocity exactly 0 the derivative of the integrated quaternion with respect to the angular velocity is not '
+            'rot (x) (0, dt/2 v) in the limit of a vanishing guard: automatic differentiation at rest returns a finite but WRONG '
+            'gradient (random-interpretation point %s)' % bad, where=f.where(),
+            construct="w = 0 + eps v (dual), guards c -> c eta (Laurent series), eta -> 0:  d rot' == rot (x) (0, dt/2 v)")
+
+
 def run(U, rep, tier):
   r3_sites(U, rep, tier)
   r3_4(U, rep)
+  r3_5(U, rep, tier)
